@@ -64,6 +64,11 @@ CONTROL = {}
 def checkpoint_id(results):
     """Identify which checkpoint a results dict belongs to: (number of sweeps / steps recorded, finished flag)."""
     n = None
+    rd = results.get('resume_data') or {}
+    if 'sweeps' in rd:  # total number of sweeps, continues to count after a resume (sweep_stats restart)
+        return [int(rd['sweeps']), bool(results.get('finished_run', False))]
+    if 'evolved_time' in rd:
+        return [int(round(1000 * float(np.real(rd['evolved_time'])))), bool(results.get('finished_run', False))]
     for key in ('sweep_stats', 'update_stats'):
         if key in results and results[key]:
             d = results[key]
